@@ -24,10 +24,12 @@ TECHNIQUE = ('property-based testing (Hypothesis): metamorphic comparison of '
 RULE = ('Generated projects using find_files over 3-5 directories, 2-4 '
         'shared/static libraries with generated names, an installed '
         'executable linking them (implicit run-time dependencies), several '
-        'install() calls, pkg_config(), options.bfg, a submodule, tests and '
-        'aliases; 5 configure runs per case with pairwise different '
-        'PYTHONHASHSEED values and 5 different invocation forms, both '
-        'backends.  Non-trivial: every case (>= 3 hash seeds, >= 2 cwd forms, '
+        'install() calls, pkg_config() with generated requires / '
+        'requires_private / conflicts lists, options.bfg, a submodule, tests, '
+        'aliases and optionally a toolchain file setting install dirs; 5 '
+        'configure runs per case with pairwise different PYTHONHASHSEED '
+        'values and 5 different invocation forms, then a forced and a lazy '
+        'regeneration, both backends.  Non-trivial: every case (>= 3 hash seeds, >= 2 cwd forms, '
         'a find result of >= 3 entries); distinct = project shape (library '
         'names/kinds, counts) + backend.')
 LEVEL_TEXT = ('Generated-input search with a metamorphic oracle: changing '
